@@ -9,8 +9,22 @@ open Evl.Encrypt Evl.EncryptTree
 /-- what a protecting pointer tag leaves at its pointer: nothing readable, and no container -/
 def settled : V → Bool
   | .leaf l => cleanLeaf l
+  | .ptr (.leaf l) => cleanLeaf l      -- a string held through a pointer, filtered in place
   | .nilPtr => true
   | _ => false
+
+/-- what a marked pointer points at -/
+def settledP : V → Bool
+  | .leaf l => cleanLeaf l
+  | _ => false
+
+/-- a pointer tag keeps a value exactly when a struct tag would -/
+theorem tagAction_keep_iff (t : TagInfo) : tagAction t = .keep ↔ action t = .keep := by
+  unfold tagAction action
+  by_cases h : t.cls = .pub ∨ t.op = .none
+  · simp [h]
+  · simp only [h, if_false]
+    cases hc : t.cls <;> cases ho : t.op <;> simp
 
 mutual
 /-- the keys of a map are distinct (Go maps), also in the maps a pointer can go through -/
@@ -36,7 +50,7 @@ def invI (c : Ctx) (marks : List (List Nat)) : Items → Bool
   | .cons _ _ _ => false
 def invV (c : Ctx) (sub : List (List Nat)) (marked : Bool) : V → Bool
   | .map es => !marked && (if sub.isEmpty then guardedEntries c es else invI c sub es)
-  | .ptr w => !marked && (if sub.isEmpty then guardedEntryTarget c w else invP c sub w)
+  | .ptr w => if marked then settledP w else (if sub.isEmpty then guardedEntryTarget c w else invP c sub w)
   | .leaf l => !marked || cleanLeaf l
   | .leaves _ => !marked
   | .struct fs => !marked && guardedFields c true fs
@@ -155,7 +169,9 @@ termination_by structural x => x
 
 theorem settled_inv (c : Ctx) (sub : List (List Nat)) (v' : V) (hs : settled v' = true) :
     invV c sub true v' = true ∧ keysOKV v' = true := by
-  cases v' <;> simp_all [settled, invV, keysOKV]
+  cases v' with
+  | ptr w => cases w <;> simp_all [settled, settledP, invV, keysOKV, keysOKP]
+  | _ => simp_all [settled, invV, keysOKV]
 
 /-- **`pointerstructure.Set` of a settled value at a found pointer keeps the invariant**, with the
 pointer added to the marks -/
@@ -216,18 +232,26 @@ theorem setPath_inv (c : Ctx) (v' : V) (hs : settled v' = true) :
             | map es1 =>
               simp only [asMap, Option.some.injEq] at hm
               subst hm
-              simp only [invV, invP, Bool.and_eq_true, Bool.not_eq_true'] at hv
+              simp only [invV, invP] at hv
+              have hm0 : marks.contains [k] = false := by
+                cases hc : marks.contains [k] with
+                | false => rfl
+                | true =>
+                  simp only [settledP] at hv
+                  have hc' : [k] ∈ marks := by simpa using hc
+                  simp [hc'] at hv
+              simp only [hm0, Bool.false_eq_true, if_false] at hv
               simp only [keysOKV, keysOKP] at hkv
               have hi0 : invI c (subMarks k marks) es1 = true := by
                 by_cases he : (subMarks k marks).isEmpty = true
                 · have : subMarks k marks = [] := by simpa using he
                   rw [this]
                   simp only [he, if_true, guardedEntryTarget] at hv
-                  exact guarded_inv c es1 [] hkv hv.2
+                  exact guarded_inv c es1 [] hkv hv
                 · simp only [he, Bool.false_eq_true, if_false] at hv
-                  exact hv.2
+                  exact hv
               obtain ⟨r1, r2⟩ := setPath_inv c v' hs (k2 :: q) es1 [] (subMarks k marks) v hg hkv hi0
-              simp only [onMap, invV, invP, keysOKV, keysOKP, hv.1, Bool.not_false, Bool.true_and, isEmpty_append_single,
+              simp only [onMap, invV, invP, keysOKV, keysOKP, hm0, isEmpty_append_single,
                 Bool.false_eq_true, if_false]
               exact ⟨r1, r2⟩
             | _ => simp [asMap] at hm
@@ -235,8 +259,9 @@ theorem setPath_inv (c : Ctx) (v' : V) (hs : settled v' = true) :
       · split at hg <;> cases hg
 
 /-- what `filterValue` stores at a pointer under a protecting tag is settled -/
-theorem filterTagged_settled (c : Ctx) (a : Action) (ha : a ≠ .keep) (v v' : V)
-    (h : filterTagged c a v = some v') : settled v' = true := by
+theorem filterTagged_settled (c : Ctx) (t : TagInfo) (ha : tagAction t ≠ .keep) (v v' : V)
+    (h : filterTagged c t v = some v') : settled v' = true := by
+  have ha' : action t ≠ .keep := fun e => ha ((tagAction_keep_iff t).mpr e)
   cases v with
   | leaf l =>
     cases l with
@@ -249,6 +274,18 @@ theorem filterTagged_settled (c : Ctx) (a : Action) (ha : a ≠ .keep) (v v' : V
     | nilBytes => simp only [filterTagged, Option.some.injEq] at h; subst h; rfl
     | _ => simp [filterTagged, ha] at h
   | nilPtr => simp only [filterTagged, Option.some.injEq] at h; subst h; rfl
+  | ptr w =>
+    cases w with
+    | leaf l =>
+      cases l with
+      | plain m =>
+        simp only [filterTagged] at h
+        obtain ⟨l', hl, rfl⟩ := map_some h
+        rcases filterLeaf_cases hl with ⟨hk, _⟩ | ⟨_, h2, _⟩
+        · exact absurd hk ha'
+        · simp [settled, cleanLeaf, h2]
+      | _ => simp [filterTagged, ha] at h
+    | _ => simp [filterTagged, ha] at h
   | _ => simp [filterTagged, ha] at h
 
 /-- one protecting tag keeps the invariant -/
@@ -321,19 +358,32 @@ theorem filtTV_clean (c : Ctx) (sub : List (List Nat)) (marked : Bool) : (v v' :
       obtain ⟨w, hw, rfl⟩ := map_some h
       simp only [plains, filtT_clean c sub es w hw hi]
   | .ptr w0, v', h, hi => by
-    simp only [invV, Bool.and_eq_true, Bool.not_eq_true'] at hi
-    obtain ⟨hm, hi⟩ := hi
-    subst hm
-    simp only [filtTV, Bool.false_eq_true, if_false] at h
-    split at h
-    · rename_i he
-      simp only [he, if_true] at hi
-      obtain ⟨w, hw, rfl⟩ := map_some h
-      simp only [plains, filtEntryTarget_clean c w0 w hw hi]
-    · rename_i he
-      simp only [he, if_false] at hi
-      obtain ⟨w, hw, rfl⟩ := map_some h
-      simp only [plains, filtTP_clean c sub w0 w hw hi]
+    simp only [invV] at hi
+    cases marked with
+    | true =>
+      simp only [if_true] at hi
+      -- a marked pointer points at a settled string: it is kept as it is
+      cases w0 with
+      | leaf l =>
+        simp only [settledP] at hi
+        simp only [filtTV, filtTP, if_true] at h
+        split at h
+        · cases h; simpa [plains] using cleanLeaf_iff.mp hi
+        · simp only [Option.map_some, Option.some.injEq] at h
+          subst h; simpa [plains] using cleanLeaf_iff.mp hi
+      | _ => simp [settledP] at hi
+    | false =>
+      simp only [Bool.false_eq_true, if_false] at hi
+      simp only [filtTV, Bool.false_eq_true, if_false] at h
+      split at h
+      · rename_i he
+        simp only [he, if_true] at hi
+        obtain ⟨w, hw, rfl⟩ := map_some h
+        simp only [plains, filtEntryTarget_clean c w0 w hw hi]
+      · rename_i he
+        simp only [he, if_false] at hi
+        obtain ⟨w, hw, rfl⟩ := map_some h
+        simp only [plains, filtTP_clean c sub w0 w hw hi]
   | .leaf l, v', h, hi => by
     simp only [invV, Bool.or_eq_true, Bool.not_eq_true'] at hi
     simp only [filtTV] at h
@@ -483,8 +533,9 @@ theorem find_setPath_other (k : Nat) (v' : V) (es : Items) : (p : List Nat) → 
 def onlyKept (c : Ctx) (k : Nat) (tags : List PTag) : Prop :=
   ∀ t ∈ tags, t.path.head? = some k → t.path = [k] ∧ tagAction (fromTagString t.tagString c.ov) = .keep
 
-theorem filterTagged_keep_plain (c : Ctx) (m : Nat) : filterTagged c .keep (.leaf (.plain m)) = some (.leaf (.plain m)) := by
-  simp [filterTagged, filterLeaf]
+theorem filterTagged_keep_plain (c : Ctx) (t : TagInfo) (m : Nat) (h : tagAction t = .keep) :
+    filterTagged c t (.leaf (.plain m)) = some (.leaf (.plain m)) := by
+  simp [filterTagged, filterLeaf, h]
 
 /-- phase 1, seen from a top-level string under key `k` that only keeping tags name: the string
 stays, no mark points below it, and it is marked exactly when one of the tags names it -/
@@ -510,7 +561,7 @@ theorem applyTags_key (c : Ctx) (k m : Nat) : (tags : List PTag) → (s s' : TS)
         by_cases hh : t.path.head? = some k
         · obtain ⟨hp, ha⟩ := hk t (by simp) hh
           rw [hp] at h1
-          simp only [getPath, hf, ha, filterTagged_keep_plain, Option.some.injEq] at h1
+          simp only [getPath, hf, filterTagged_keep_plain c _ m ha, Option.some.injEq] at h1
           subst h1
           refine ⟨?_, ?_, ?_⟩
           · simp only [setPath]
